@@ -601,6 +601,31 @@ def check_text(acc, line):
                     if rows != want_cols:
                         acc.fail(f"load_annotations(Gff): start / stop columns differ from the extent of the spans [strand {strand}; read in blocks of a few lines]",
                                  {"part": "text", "line": line, "cls": cls, "strand": strand, "lines_per_block": block}, {"got": str(rows)[:300], "want": str(want_cols)[:300]})
+    # rows of two multi-row features interleaved (exon, CDS, exon, CDS ...), read in blocks smaller than the distance
+    # between two rows of one feature: each feature is still one record
+    multi = [sh for sh in shapes(line) if len(sh) == 2][:4]
+    if len(multi) >= 2:
+        from cogent3.core.annotation_db import load_annotations as _load
+
+        ra = rec("gff", "s1", "exon", "ia", multi[0], "+", False)
+        rb = rec("gff", "s1", "cds", "ib", multi[1], "+", False)
+        rows_a, rows_b = gff_lines(ra), gff_lines(rb)
+        inter = [x for pair in zip(rows_a, rows_b) for x in pair] + rows_a[len(rows_b):] + rows_b[len(rows_a):]
+        tail = gff_lines(rec("gff", "s1", "gene", "ic", shapes(line)[0], "-", False))
+        text = "##gff-version 3\n" + "\n".join(inter[:2] + tail + inter[2:]) + "\n"
+        want = model_rows([ra, rb, rec("gff", "s1", "gene", "ic", shapes(line)[0], "-", False)])
+        path = _tmp(".gff3")
+        with open(path, "w") as f:
+            f.write(text)
+        try:
+            for block in (None, 1, 2, 3):
+                acc.case(("load-interleaved", block))
+                r = call(lambda: all_rows(_load(path=path) if block is None else _load(path=path, lines_per_block=block)))
+                if r != ("ok", want):
+                    acc.fail("load_annotations(Gff): records differ from the text [rows of two features interleaved" + ("; read in blocks of a few lines]" if block else "]"),
+                             {"part": "text", "line": line, "cls": "Gff", "lines_per_block": block, "interleaved": True}, {"got": str(r[1])[:400], "want": str(want)[:400]})
+        finally:
+            os.remove(path)
     # loading only some sequence ids of a GFF file: the ids are chosen so that one is a substring of another; every way
     # of giving the selection (a str, a list, a tuple, a set) selects by equality
     from cogent3.core.annotation_db import load_annotations
